@@ -4,6 +4,7 @@ import (
 	"bytes"
 	"fmt"
 	"io"
+	"math"
 	"runtime"
 	"strings"
 	"testing"
@@ -22,6 +23,7 @@ type bOp struct {
 	Data  []byte    `json:"data,omitempty"`
 	N     int       `json:"n"`
 	Rune  int32     `json:"rune"`
+	Big   int       `json:"big,omitempty"` // write / writestring: the payload is this many pattern bytes (large-buffer class)
 	Plan  FaultPlan `json:"plan"`
 	Short int       `json:"short"` // WriteTo: short write at this many bytes (-1 none)
 	Fail  int       `json:"fail"`  // WriteTo: error at this many bytes (-1 none)
@@ -76,6 +78,11 @@ func drawOps(rt *rapid.T, n int, choices []string) []bOp {
 			if op.Op == "read" && op.N < 0 {
 				op.N = 5
 			}
+			if op.Op == "grow" && rapid.IntRange(0, 7).Draw(rt, "hugegrow") == 0 {
+				// impossible sizes: both buffers must panic with ErrTooLarge and stay as they were (sizes of 2^50 and more
+				// are refused by the allocator without touching memory)
+				op.N = rapid.SampledFrom([]int{math.MaxInt, math.MaxInt - 1, math.MaxInt - 64, math.MaxInt/2 + 1, 1 << 62, 1 << 50}).Draw(rt, "huge")
+			}
 		case "readfrom":
 			op.Data = rapid.SliceOfN(rapid.Byte(), 0, 1500).Draw(rt, "src")
 			if rapid.IntRange(0, 2).Draw(rt, "bigsrc") == 0 {
@@ -119,7 +126,46 @@ func drawC11(rt *rapid.T) interface{} {
 		return sc
 	}
 	sc.Ops = drawOps(rt, rapid.IntRange(1, hx.Pick(40, 120)).Draw(rt, "nops"), bufOps)
+	if rapid.IntRange(0, 39).Draw(rt, "large") == 0 {
+		// large-buffer class: capacity of a megabyte and more, appends of a quarter to a whole of it on a non-empty buffer
+		sizes := []int{1 << 18, 300000, 1 << 19, 1<<20 - 1, 1 << 20, 1<<20 + 1, 3 << 19}
+		var ops []bOp
+		first := bOp{Op: "write", Big: rapid.SampledFrom([]int{1 << 20, 1<<20 + 1, 1 << 21}).Draw(rt, "lfirst"), Short: -1, Fail: -1}
+		if rapid.Bool().Draw(rt, "lgrow") {
+			first = bOp{Op: "grow", N: first.Big, Short: -1, Fail: -1}
+		}
+		ops = append(ops, first)
+		for k := rapid.IntRange(1, 6).Draw(rt, "lops"); k > 0; k-- {
+			op := bOp{Op: rapid.SampledFrom([]string{"write", "write", "writestring", "grow", "next", "readbyte", "writebyte", "truncate", "len"}).Draw(rt, "lop"), Short: -1, Fail: -1}
+			switch op.Op {
+			case "write", "writestring":
+				op.Big = rapid.SampledFrom(sizes).Draw(rt, "lsize")
+			case "grow", "truncate":
+				op.N = rapid.SampledFrom(sizes).Draw(rt, "ln")
+			case "next":
+				op.N = rapid.SampledFrom([]int{1, 1000, 1 << 18}).Draw(rt, "lnext")
+			}
+			ops = append(ops, op)
+		}
+		if len(sc.Ops) > 6 {
+			sc.Ops = sc.Ops[:6]
+		}
+		sc.Ops = append(ops, sc.Ops...)
+	}
 	return sc
+}
+
+var bigBytes []byte
+
+// bigPattern: n bytes of a fixed non-periodic-looking pattern (shared, never modified)
+func bigPattern(n int) []byte {
+	if len(bigBytes) < n {
+		bigBytes = make([]byte, n)
+		for i := range bigBytes {
+			bigBytes[i] = byte(i*7 + i>>8)
+		}
+	}
+	return bigBytes[:n]
 }
 
 type negReader struct{}
@@ -164,6 +210,10 @@ func apply(b bufFace, op bOp, consumed *[]byte, fired map[string]int) (res strin
 			res = fmt.Sprintf("panic: %v", r)
 		}
 	}()
+	if op.Big > 0 {
+		fired["large-append"]++
+		op.Data = bigPattern(op.Big)
+	}
 	switch op.Op {
 	case "write":
 		n, err := b.Write(op.Data)
@@ -384,6 +434,9 @@ func c11Seq(sc *C11Scenario, opsList []bOp, o *hx.Outcome, yield func()) []strin
 		}
 		if len(tr) >= 6 && tr[:6] == "panic:" {
 			o.Counts["panic-in-both"]++
+			if strings.Contains(tr, "too large") {
+				o.Counts["too-large-panic-in-both"]++
+			}
 		}
 	}
 	for _, k := range heldStrings {
@@ -410,9 +463,9 @@ func TestC11(t *testing.T) {
 		Run:         runC11,
 		Real:        []string{"tex.Buffer (unmodified)", "bytes.Buffer of go1.26.8 (the reference)"},
 		Stubs:       []string{"io.Reader handed to ReadFrom (fragmenting, (0,nil) reads, data with EOF, error after k bytes, negative count)", "io.Writer handed to WriteTo (short write, error after k bytes, over-long count)"},
-		Rule: "scenario = initial buffer (zero, NewBuffer, NewBufferString, NewSizedBuffer) x up to 40 operations over Write/WriteString/WriteByte/WriteRune (incl. negative, surrogate and out-of-range runes)/Read/ReadByte/ReadRune/UnreadByte/UnreadRune/Next/Truncate/Reset/Grow (incl. invalid arguments)/ReadFrom(faulty reader)/WriteTo(faulty writer)/Len/Bytes/String/ReWrite; " +
+		Rule: "scenario = initial buffer (zero, NewBuffer, NewBufferString, NewSizedBuffer) x up to 40 operations over Write/WriteString/WriteByte/WriteRune (incl. negative, surrogate and out-of-range runes)/Read/ReadByte/ReadRune/UnreadByte/UnreadRune/Next/Truncate/Reset/Grow (incl. invalid and impossible sizes)/ReadFrom(faulty reader)/WriteTo(faulty writer)/Len/Bytes/String/ReWrite (1 in 40: a large-buffer prelude, capacity of 1-2 MiB and appends of 256 KiB-1.5 MiB); " +
 			"both buffers run the same operation, results + errors + recovered panics + Len + Bytes compared after every step; non-trivial = >=3 ops; distinct = distinct hash of the step log",
-		Probes: []string{"panic-in-both", "rewrite", "fragment", "zero-read", "eof-with-data", "read-error", "read-error-with-data", "short-write", "write-error", "unread-after-grow-skipped", "independent-buffers-concurrently"},
+		Probes: []string{"panic-in-both", "rewrite", "fragment", "zero-read", "eof-with-data", "read-error", "read-error-with-data", "short-write", "write-error", "unread-after-grow-skipped", "independent-buffers-concurrently", "too-large-panic-in-both", "large-append"},
 		Assumptions: []string{"reference = bytes.Buffer of the toolchain building the check (go1.26.8)", "UnreadByte/UnreadRune directly after Grow and Cap() are not compared (the property's exclusion)",
 			"ReWrite is checked against its one-line specification while nothing has been read since the last reset"},
 	})
